@@ -941,7 +941,19 @@ func checkT5(c *Ctx, jr *joinRoles) {
 		return
 	}
 	a0, a1 := p.Sym(calcCall.Call.Args[0]).String(), p.Sym(calcCall.Call.Args[1]).String()
-	okArgs := strings.HasSuffix(a0, ".Timeout") && strings.HasSuffix(a1, ".TimeoutInaccuracy") && strings.Contains(a1, "normalize(")
+	// the inaccuracy must be read from the result of the options' normalising method (a product
+	// method on the options type applied to the constructor's options), not from the raw options
+	normalised := false
+	if s1 := p.Sym(calcCall.Call.Args[1]); s1.Op == "field" && len(s1.Args) == 1 {
+		if base := s1.Args[0].StripConv(); base.Op == "call" {
+			if nc, ok := base.V.(*ssa.Call); ok {
+				if nf := p.Callee(nc); nf != nil && p.IsProduct(nf) && nf.Signature.Recv() != nil && namedOrigin(nf.Signature.Recv().Type()) != nil && strings.HasSuffix(namedOrigin(nf.Signature.Recv().Type()).Obj().Name(), "Opts") {
+					normalised = true
+				}
+			}
+		}
+	}
+	okArgs := strings.HasSuffix(a0, ".Timeout") && strings.HasSuffix(a1, ".TimeoutInaccuracy") && normalised
 	c.R.Check(okArgs, "T5", jr.key+"#ctor-args", p.InstrPos(calcCall), "computed from (Timeout, TimeoutInaccuracy) of the normalised options", "interval computed from ("+a0+", "+a1+"): expected Opts.Timeout and the normalised Opts.TimeoutInaccuracy (default substituted for 0)")
 	// error propagated before go
 	// (c) formula
